@@ -445,6 +445,176 @@ def series_single_ok(fn):
     return wrapped
 
 
+# ------------------------------------------------------------------ patterns
+NAME_RE = {'anchored': True, 'items': [([(42, 42), (65, 90), (97, 122)], 'QOne')]}
+EXP_RE = {'anchored': False, 'items': [([(69, 69)], 'QOne'), ([(43, 43)], 'QOpt'), ([(45, 45)], 'QOpt'),
+                                       ([(48, 57)], 'QPlus')]}
+BASELINE_PATTERNS = {'name_re_split': (r'^[\*a-zA-Z]', NAME_RE), 'name_re_parse': (r'^[\*a-zA-Z]', NAME_RE),
+                     'exp_re': (r'E\+?-?\d+', EXP_RE)}
+_ESC = {'d': [(48, 57)], 's': [(9, 13), (32, 32)]}
+_META = set('.^$*+?{}[]\\|()')
+
+
+def _norm_class(ranges):
+    out = []
+    for a, b in sorted(ranges):
+        if out and a <= out[-1][1] + 1:
+            out[-1] = (out[-1][0], max(out[-1][1], b))
+        else:
+            out.append((a, b))
+    return out
+
+
+def parse_regex(pat, anchored=False):
+    """the fragment femio's result reader uses: optional ^, then character classes / literals /
+    \\d, each with an optional ? + * ; classes are normalised to sorted, merged code ranges"""
+    if not isinstance(pat, str) or not all(32 <= ord(c) < 127 for c in pat):
+        raise TranslateError(f'pattern {pat!r} is not printable ASCII text')
+    i, items = 0, []
+    if pat.startswith('^'):
+        anchored, i = True, 1
+
+    def esc(j):
+        if j >= len(pat):
+            raise TranslateError(f'pattern {pat!r}: dangling backslash')
+        ch = pat[j]
+        if ch in _ESC:
+            return list(_ESC[ch])
+        if ch.isalnum():
+            raise TranslateError(f'pattern {pat!r}: escape \\{ch} not in the translated fragment')
+        return [(ord(ch), ord(ch))]
+    while i < len(pat):
+        ch = pat[i]
+        if ch == '[':
+            i += 1
+            if i < len(pat) and pat[i] == '^':
+                raise TranslateError(f'pattern {pat!r}: negated class not in the translated fragment')
+            ranges, first = [], True
+            while True:
+                if i >= len(pat):
+                    raise TranslateError(f'pattern {pat!r}: unterminated class')
+                if pat[i] == ']' and not first:
+                    i += 1
+                    break
+                first = False
+                if pat[i] == '\\':
+                    lo = esc(i + 1)
+                    i += 2
+                    if len(lo) != 1 or lo[0][0] != lo[0][1] or pat[i - 1] in _ESC:
+                        ranges += lo
+                        continue
+                    lo = lo[0][0]
+                else:
+                    lo = ord(pat[i])
+                    i += 1
+                if i + 1 < len(pat) and pat[i] == '-' and pat[i + 1] != ']':
+                    if pat[i + 1] == '\\':
+                        hi = esc(i + 2)
+                        if len(hi) != 1 or hi[0][0] != hi[0][1]:
+                            raise TranslateError(f'pattern {pat!r}: bad range')
+                        hi, i = hi[0][0], i + 3
+                    else:
+                        hi, i = ord(pat[i + 1]), i + 2
+                    if hi < lo:
+                        raise TranslateError(f'pattern {pat!r}: bad range')
+                    ranges.append((lo, hi))
+                else:
+                    ranges.append((lo, lo))
+            cl = _norm_class(ranges)
+        elif ch == '\\':
+            cl = _norm_class(esc(i + 1))
+            i += 2
+        elif ch in _META:
+            raise TranslateError(f'pattern {pat!r}: {ch!r} at {i} is not in the translated fragment')
+        else:
+            cl = [(ord(ch), ord(ch))]
+            i += 1
+        q = 'QOne'
+        if i < len(pat) and pat[i] in '?+*':
+            q = {'?': 'QOpt', '+': 'QPlus', '*': 'QStar'}[pat[i]]
+            i += 1
+            if i < len(pat) and pat[i] in '?+*{':
+                raise TranslateError(f'pattern {pat!r}: lazy / possessive / counted quantifier')
+        items.append((cl, q))
+    return {'anchored': anchored, 'items': items}
+
+
+def _reach(tree, fn):
+    """the function and the private helpers of its class it calls (two levels)"""
+    methods = {f.name: f for f in _cls(tree, 'FrontISTRData').body if isinstance(f, ast.FunctionDef)}
+    seen, todo = [fn], [(fn, 0)]
+    while todo:
+        f, d = todo.pop()
+        for n in ast.walk(f):
+            if isinstance(n, ast.Call) and isinstance(n.func, ast.Attribute) and isinstance(n.func.value, ast.Name) \
+                    and n.func.value.id in ('self', 'cls', 'FrontISTRData') and n.func.attr in methods \
+                    and n.func.attr.startswith('_') and methods[n.func.attr] not in seen and d < 2 \
+                    and n.func.attr not in ('_split_series', '_parse_res', '_read_res'):
+                seen.append(methods[n.func.attr])
+                todo.append((methods[n.func.attr], d + 1))
+    return seen
+
+
+def patterns(tree):
+    """{name_re_split, name_re_parse, exp_re: (pattern text, parsed)}: the argument of
+    indices_match_clusters and of re.search in _split_series, of re.search / re.match in _parse_res"""
+    ev = _Eval(tree, 'FrontISTRData', 0)
+
+    def text(node, where):
+        try:
+            v = ev.ev(node, {})
+        except _Unknown as u:
+            raise TranslateError(f'{where}: pattern not a constant ({u})')
+        if not isinstance(v, str):
+            raise TranslateError(f'{where}: pattern is not a string constant')
+        return v
+
+    def calls(fn):
+        cl, rs = [], []
+        for f in _reach(tree, fn):
+            for n in ast.walk(f):
+                if isinstance(n, ast.Call) and isinstance(n.func, ast.Attribute):
+                    if n.func.attr == 'indices_match_clusters' and len(n.args) == 1 and not n.keywords:
+                        cl.append(n.args[0])
+                    elif n.func.attr in ('search', 'match') and isinstance(n.func.value, ast.Name) \
+                            and n.func.value.id == 're' and len(n.args) == 2 and not n.keywords:
+                        rs.append((n.func.attr, n.args[0]))
+                    elif isinstance(n.func.value, ast.Name) and n.func.value.id == 're' \
+                            and n.func.attr in ('fullmatch', 'findall', 'finditer', 'compile'):
+                        raise TranslateError(f'{fn.name}: re.{n.func.attr} is not in the translated fragment')
+        return cl, rs
+    cl, rs = calls(_fn(tree, 'FrontISTRData', '_split_series'))
+    if len(cl) != 1 or len(rs) != 1:
+        raise TranslateError(f'_split_series: expected one indices_match_clusters(P) and one re.search(P, line), '
+                             f'found {len(cl)} / {len(rs)}')
+    out = {}
+    t = text(cl[0], '_split_series indices_match_clusters')
+    out['name_re_split'] = (t, parse_regex(t))
+    t = text(rs[0][1], '_split_series re.search')
+    out['exp_re'] = (t, parse_regex(t, anchored=rs[0][0] == 'match'))
+    cl, rs = calls(_fn(tree, 'FrontISTRData', '_parse_res'))
+    rs = [r for r in rs if text(r[1], '_parse_res') != r'\s+']
+    if cl or len(rs) != 1:
+        raise TranslateError(f'_parse_res: expected one re.search(P, line) for the name lines, found {len(rs)}')
+    t = text(rs[0][1], '_parse_res re.search')
+    out['name_re_parse'] = (t, parse_regex(t, anchored=rs[0][0] == 'match'))
+    return out
+
+
+def emit_patterns(pats):
+    def cl(c):
+        return '[' + '; '.join(f'({a}, {b})' for a, b in c) + ']%N'
+
+    def rx(r):
+        return ('{| re_anchored := ' + ('true' if r['anchored'] else 'false') + '; re_items := ['
+                + '; '.join(f'({cl(c)}, {q})' for c, q in r['items']) + '] |}')
+    return ('(* generated by translate/c02_cfg.py from the tree under test; do not edit *)\n'
+            'From Coq Require Import NArith List.\nImport ListNotations.\n'
+            'From FV.C02 Require Import Regex.\n'
+            + ''.join(f'(* {pats[k][0]} *)\nDefinition {k} : regex := {rx(pats[k][1])}.\n'
+                      for k in ('name_re_split', 'name_re_parse', 'exp_re')))
+
+
 # ------------------------------------------------------------------- driver
 def translate(repo):
     """-> (cfg, consumed source hashes, degraded {region: reason})"""
@@ -473,6 +643,8 @@ def translate(repo):
     r = region('series_single_ok', lambda: series_single_ok(_fn(tree, 'FrontISTRData', 'read_files')))
     if r is not None:
         cfg['series_single_ok'] = r
+    r = region('patterns', lambda: patterns(tree))
+    cfg['patterns'] = r if r else dict(BASELINE_PATTERNS)
     r = region('file_layer', lambda: c04_cfg.file_layer(repo))
     if r:
         consumed['femio/util/string_parser.py:StringSeries.read_file+read_files'] = r
@@ -502,4 +674,5 @@ def emit(cfg):
 if __name__ == '__main__':
     c, s, d = translate(sys.argv[1] if len(sys.argv) > 1 else '/repo')
     print(c)
+    print(emit_patterns(c['patterns']))
     print('degraded:', d)
